@@ -306,6 +306,103 @@ pub fn check(ctx: &mut Ctx) {
             F::Disagree(d) => ctx.case("model", &key, "fdis", serde_json::json!({"what": d, "case": info})),
         }
     }
+    // ---- arguments of every non-numeric type (dates, durations, booleans, arrays, objects), alone
+    // or mixed with numbers in one column: the numeric functions ignore them, the rows still count
+    let nt = ctx.budget(300, 8000);
+    for _ in 0..nt {
+        let mut r = ctx.rng.fork();
+        let nrows = 1 + r.below(14);
+        let thr = r.range(0, 40);
+        let mut input = vec![];
+        let mut rows: Vec<(String, Option<i64>)> = vec![];
+        for _ in 0..nrows {
+            let k = r.pick(&["a", "b", "c"]).to_string();
+            let n = if r.chance(85) { Some(r.range(-20, 60)) } else { None };
+            let ts = format!("20{:02}-0{}-1{}T0{}:{:02}:{:02}Z", r.range(0, 30), 1 + r.below(9), r.below(9), r.below(9), r.below(60), r.below(60));
+            let mut m = vec![format!("\"k\":\"{}\"", k), format!("\"ts\":\"{}\"", ts), "\"arr\":[1,2]".to_string(), "\"o\":{\"p\":1}".to_string()];
+            if let Some(n) = n {
+                m.push(format!("\"n\":{}", n));
+            }
+            input.extend(format!("{{{}}}\n", m.join(",")).into_bytes());
+            rows.push((k, n));
+        }
+        // (expression, which rows contribute which number)
+        let (expr, pick): (String, Box<dyn Fn(Option<i64>) -> Option<i64>>) = match r.below(8) {
+            0 => ("parseDate(ts)".into(), Box::new(|_| None)),
+            1 => ("parseDate(ts) - parseDate(ts)".into(), Box::new(|_| None)),
+            2 => ("n > 3".into(), Box::new(|_| None)),
+            3 => ("arr".into(), Box::new(|_| None)),
+            4 => ("o".into(), Box::new(|_| None)),
+            5 => (format!("if(n > {}, parseDate(ts), n)", thr), Box::new(move |n| n.filter(|v| *v <= thr))),
+            6 => (format!("if(n > {}, arr, n)", thr), Box::new(move |n| n.filter(|v| *v <= thr))),
+            _ => (format!("if(n <= {}, n, n > 0)", thr), Box::new(move |n| n.filter(|v| *v <= thr))),
+        };
+        let by = r.chance(60);
+        let q = format!("* | json | count as c, sum({e}) as s, min({e}) as lo, max({e}) as hi, avg({e}) as av{}", if by { " by k" } else { "" }, e = expr);
+        let key = ckey(&q, &input);
+        let info = serde_json::json!({"query": q, "input": String::from_utf8_lossy(&input)});
+        let c = run_both(ctx, &q, &input);
+        if !c.imp.compiled || c.imp.panicked.is_some() || c.imp.hung {
+            ctx.case("typed-args", &key, "viol", serde_json::json!({"class": "", "what": "aggregation stage did not run", "panic": c.imp.panicked, "compile_err": c.imp.compile_err, "case": info}));
+            continue;
+        }
+        let text = String::from_utf8_lossy(&c.imp.stdout).to_string();
+        let out = match canon::parse(text.trim_end()) {
+            Ok(J::Arr(rows)) => rows,
+            _ => vec![],
+        };
+        let mut problem: Option<String> = None;
+        let groups: Vec<Option<&str>> = if by { vec![Some("a"), Some("b"), Some("c")] } else { vec![None] };
+        let mut expected_rows = 0;
+        for g in groups {
+            let members: Vec<&(String, Option<i64>)> = rows.iter().filter(|x| g.map(|g| x.0 == g).unwrap_or(true)).collect();
+            if members.is_empty() {
+                continue;
+            }
+            expected_rows += 1;
+            let nums: Vec<i64> = members.iter().filter_map(|x| pick(x.1)).collect();
+            let row = out.iter().find(|row| match (row, g) {
+                (J::Obj(kvs), Some(g)) => kvs.iter().any(|kv| kv.0 == "k" && kv.1 == J::Str(g.to_string())),
+                (J::Obj(_), None) => true,
+                _ => false,
+            });
+            let kvs = match row {
+                Some(J::Obj(kvs)) => kvs,
+                _ => {
+                    problem = Some(format!("group {:?} missing", g));
+                    break;
+                }
+            };
+            let cell = |name: &str| kvs.iter().find(|kv| kv.0 == name).map(|kv| kv.1.clone()).unwrap_or(J::Null);
+            let want_lo = nums.iter().min().map(|v| J::Int(*v)).unwrap_or(J::Null);
+            let want_hi = nums.iter().max().map(|v| J::Int(*v)).unwrap_or(J::Null);
+            let sum: i64 = nums.iter().sum();
+            if cell("c") != J::Int(members.len() as i64) {
+                problem = Some(format!("group {:?}: count {:?}, {} rows", g, cell("c"), members.len()));
+            } else if as_f64(&cell("s")) != Some(sum as f64) {
+                problem = Some(format!("group {:?}: sum {:?}, the numeric values add up to {} (non-numeric arguments are ignored)", g, cell("s"), sum));
+            } else if canon::normalize(&cell("lo")) != canon::normalize(&want_lo) || canon::normalize(&cell("hi")) != canon::normalize(&want_hi) {
+                problem = Some(format!("group {:?}: min/max {:?}/{:?}, expected {:?}/{:?} (None when the group has no numeric value)", g, cell("lo"), cell("hi"), want_lo, want_hi));
+            } else if !nums.is_empty() && !as_f64(&cell("av")).map(|a| close(a, sum as f64 / nums.len() as f64)).unwrap_or(false) {
+                problem = Some(format!("group {:?}: average {:?} of {:?}", g, cell("av"), nums));
+            }
+        }
+        if problem.is_none() && out.len() != expected_rows {
+            problem = Some(format!("{} rows in the result, {} groups in the input", out.len(), expected_rows));
+        }
+        match problem {
+            Some(w) => {
+                ctx.case("typed-args", &key, "viol", serde_json::json!({"class": "", "what": w, "got": text, "case": info}));
+                continue;
+            }
+            None => ctx.case("typed-args", &key, "pass", info.clone()),
+        }
+        match compare(&c, true) {
+            F::Agree => ctx.case("model", &key, "pass", info),
+            F::Skip(w) => ctx.case("model", "", "skip", serde_json::json!({"why": w.split(':').next().unwrap_or("").to_string()})),
+            F::Disagree(d) => ctx.case("model", &key, "fdis", serde_json::json!({"what": d, "case": info})),
+        }
+    }
     // two functions of the same kind in one stage (README uses this): each must have its own column
     if ctx.shard == 0 {
         let input = b"{\"a\":1,\"b\":2}\n{\"a\":1,\"b\":3}\n{\"a\":2,\"b\":2}\n".to_vec();
